@@ -1333,6 +1333,9 @@ def process_xproc(res: Result, job: dict[str, Any], out, tmp: Path, budget: list
             res.count("xproc:recipe-covered")
             for k in sorted(set(rec.get("edits_done") or [])):
                 res.count(f"xproc:edit={k}")
+        for k in sorted(set(rec.get("interpreter_dependent", []))):
+            res.count("xproc:difference-also-shown-by-an-unserialized-twin-in-the-reader(not-a-verdict):" + k.split(":")[0])
+            res.notes.append(f"{rec['subject']}: {k} between the writer's original and the reader's copy is also shown by a twin built by the reader's interpreter (hash-seed dependent class, not attributed to serialization)")
         res.nontrivial(("xproc", rec["subject"], job["wseed"], tuple(job["rseeds"]), job.get("via"), item.get("moment"), item.get("seed"), json.dumps(item.get("exprs"))))
         failed_kinds = set()
         for fkind, what, rseed in rec["failures"]:
